@@ -896,6 +896,15 @@ def gen_ewr(rng):
         out += ["top acts 1", rng.choice(["despawn e%d" % ea, "despawn e%d" % eb, "resmut 0"])]
         out += ["top acts 1", "wrremove 0 " + bundle]
         out += ["top acts 3", "entevent e%d 0 %d" % (eb, g.newpid()), "mutate e%d 0 3" % eb, "broadcast 0 %d" % g.newpid()]
+    if rng.random() < 0.4:
+        # piecewise removal: one trigger kind per call, in a random order; the local data must go with the last one
+        w = rng.randrange(g.n_ewr); e = "e%d" % rng.randrange(nE)
+        kinds = ["emut:%s:0", "eev:%s:0"] if w == 0 else ["eins:%s:1", "erem:%s:1", "eev:%s:1"]
+        rng.shuffle(kinds)
+        out += ["top acts 1", "ewradd %d %s %d" % (w, e, rng.randrange(9))]
+        for kd in kinds:
+            out += ["top acts 1", "ewrremove %d %s" % (w, kd % e)]
+            if rng.random() < 0.3: out += ["top acts 1", fire(e)]
     for _ in range(rng.randint(3, 8)):
         sc = []
         for _ in range(rng.randint(1, 3)):
